@@ -27,7 +27,7 @@ func c09Text(k *h.Case, prog *spec.Program) *spec.TextVal {
 	case 1:
 		t.Type = "braille"
 	case 2:
-		t.Type = []string{"custom", "utf8", "ümlaut", "text", "script", "moves"}[r.IntN(6)]
+		t.Type = []string{"custom", "utf8", "ümlaut", "text", "script", "moves", "string", "asciz"}[r.IntN(8)]
 	}
 	nparts := 1 + r.IntN(4)
 	if r.IntN(3) == 0 {
